@@ -1,4 +1,5 @@
 pub mod time;
+pub mod wire;
 
 /// An executor runs op lines against the real implementation and returns the
 /// canonical observation line for each.
